@@ -1,5 +1,6 @@
 import QtVerif.Model.Proto
 import QtVerif.Model.Slave
+import QtVerif.Model.SlaveNames
 /-!
 Line-protocol front end of the master/slave model, shared by Driver/C12.lean and Driver/C13.lean.
 
@@ -180,6 +181,13 @@ def dstep (d : DState) : List String → DState × String
       s!"{x.1}:" ++ ",".intercalate (x.2.map fmtVal))
     ({ d with m := m' }, "ok " ++ ";".intercalate parts)
   | ["observe"] => (d, "ok " ++ fmtState d.m)
+  -- attribute names (C12): `slave-name owned,owned,… name` / `present-name owned,… name`; answer: the mapped name or `-`
+  | ["slave-name", owned, n] =>
+    (d, "ok " ++ match Names.slaveName ((owned.splitOn ",").map String.toList) n.toList with
+      | some k => String.ofList k | none => "-")
+  | ["present-name", owned, k] =>
+    (d, "ok " ++ match Names.presentName ((owned.splitOn ",").map String.toList) k.toList with
+      | some n => String.ofList n | none => "-")
   | _ => (d, "bad-op")
 
 end QtVerif.Slave.Prov
